@@ -1,7 +1,10 @@
 use std::collections::HashMap;
 use std::hash::Hash;
 use std::sync::Arc;
+#[cfg(not(cached_verif))]
 use std::sync::atomic::{AtomicBool, Ordering};
+#[cfg(cached_verif)]
+use shuttle::sync::atomic::{AtomicBool, Ordering};
 use std::sync::atomic::Ordering::Acquire;
 use std::time::Duration;
 
